@@ -54,6 +54,7 @@ profile('setup-client', PP.gen_setup_client)
 profile('setup-server', PP.gen_setup_server)
 
 profile('reconnect', XR.gen_reconnect)
+profile('reconnect-lease', XR.gen_reconnect_lease)
 
 profile('hostile', PH.gen_hostile)
 profile('buggify', PH.gen_buggify)
@@ -102,8 +103,9 @@ CHECKS = {
                         'rx': [XRX.oracle_c09_rx]}, 'level': 'exploration'},
     'C11': {'profiles': [('cut', 4000, 150000), ('cut-sweep', 32, 1000), ('cut-sweep-full', 12, 400)],
             'oracles': [O.oracle_c11], 'level': 'fault_enumeration'},
-    'C14': {'profiles': [('lease-req', 12000, 400000), ('lease-resp', 3000, 100000)],
-            'oracles': [PP.oracle_c14], 'level': 'exploration'},
+    'C14': {'profiles': [('lease-req', 12000, 400000), ('lease-resp', 3000, 100000), ('reconnect-lease', 3000, 100000)],
+            'oracles': {'lease-req': [PP.oracle_c14], 'lease-resp': [PP.oracle_c14], 'reconnect-lease': [XR.oracle_c14_reconnect]},
+            'level': 'exploration'},
     'C15': {'profiles': [('keepalive', 8000, 300000)], 'oracles': [PP.oracle_c15], 'level': 'exploration'},
     'C16': {'profiles': [('setup-client', 8000, 300000), ('setup-server', 4000, 150000)],
             'oracles': [PP.oracle_c16], 'level': 'exploration'},
